@@ -168,14 +168,19 @@ package kvql
 //@   assigns ctx.Hit, mapof(ctx.FieldCaches)
 //@   ensures[C01] defined: (err == nil) == (lok(e, kv) && rok(e, kv))
 //@   ensures kind: err == nil ==> isstr(ret)
+//@   ensures[C01] value: err == nil && isText(lv(e, kv)) && isText(rv(e, kv)) ==> textOf(ret) == cat(textOf(lv(e, kv)), textOf(rv(e, kv)))
 //
-// Not yet verified (thin assumed contract: frame only): regular expressions.
+// `~=`: the left text matches the right text read as a regular expression (regexp.Compile /
+// Match are T-STD: reOk names the patterns that compile, reMatch the match relation).
 //@ func (e *BinaryOpExpr) execRegexpMatch(kv KVPair, ctx *ExecuteCtx) (ret bool, err error)
-//@   trusted thin contract (frame only), body not yet verified
+//@   props C01 C05
 //@   requires[C05] c5: coherent(ctx, val(kv.Key), val(kv.Value)) && wfCtx(ctx) && wfRefs()
 //@   ensures[C05] coherent: coherent(ctx, val(kv.Key), val(kv.Value))
 //@   requires wfBin(e)
 //@   assigns ctx.Hit, mapof(ctx.FieldCaches)
+//@   ensures[C01] defined: (err == nil) == (lok(e, kv) && rok(e, kv) && isText(lv(e, kv)) && isText(rv(e, kv)) && reOk(textOf(rv(e, kv))))
+//@   ensures[C01] match: err == nil ==> ret == reMatch(textOf(rv(e, kv)), textOf(lv(e, kv)))
+//
 // The static type of a call is looked up in the function registry (shared, read only).
 //@ func (e *FunctionCallExpr) ReturnType() (t Type)
 //@   trusted thin contract (registry lookup; names the interface's rtype), body not verified
@@ -194,13 +199,20 @@ package kvql
 //@   ensures evalok: (err == nil) == evalok(e, val(kv.Key), val(kv.Value))
 //@   ensures evalv: err == nil ==> result == evalv(e, val(kv.Key), val(kv.Value))
 //
+// unpackArray copies any of the list representations into a fresh []any (13 near-identical loops).
+//@ func unpackArray(s any) (ret []any, ok bool)
+//@   trusted thin contract (frame only: a pure conversion into a fresh slice), body not verified
+//@   assigns nothing
+//@   ensures ok ==> isnil(ret) || fresh(ret)
+//@   ensures lists: is(s, []string) || is(s, []int64) || is(s, []float64) || is(s, [][]byte) ==> ok
+//
 // x IN (a, b, ...): some element equals x (README: "in list followed by in operator"); texts by
 // their bytes, numbers numerically (integers here). inTextN / inIntN: among the first n elements.
 //@ define inTextN(e *BinaryOpExpr, kv KVPair, n Int) Bool = exists j Int :: 0 <= j && j < n && textOf(evalv(as(e.Right, *ListExpr).List[j], val(kv.Key), val(kv.Value))) == textOf(lv(e, kv))
 //@ define inIntN(e *BinaryOpExpr, kv KVPair, n Int) Bool = exists j Int :: 0 <= j && j < n && intof(evalv(as(e.Right, *ListExpr).List[j], val(kv.Key), val(kv.Value))) == intof(lv(e, kv))
 //@ define nitems(e *BinaryOpExpr) Int = len(as(e.Right, *ListExpr).List)
 //@ func (e *BinaryOpExpr) execStringIn(kv KVPair, ctx *ExecuteCtx) (ret any, err error)
-//@   props C01 C05
+//@   props C01 C05 C03
 //@   requires[C05] c5: coherent(ctx, val(kv.Key), val(kv.Value)) && wfCtx(ctx) && wfRefs()
 //@   ensures[C05] coherent: coherent(ctx, val(kv.Key), val(kv.Value))
 //@   requires wfBetween(e)
@@ -208,6 +220,7 @@ package kvql
 //@   ensures kind: err == nil ==> isbool(ret)
 //@   ensures[C01] defined: err == nil && is(e.Right, *ListExpr) ==> lok(e, kv) && (nitems(e) > 0 ==> isText(lv(e, kv)))
 //@   ensures[C01] member: err == nil && is(e.Right, *ListExpr) ==> ret == ABool(inTextN(e, kv, nitems(e)))
+//@   ensures[C03] lists: (is(e.Right, *FunctionCallExpr) || is(e.Right, *FieldReferenceExpr)) && rtype(e.Right) == TLIST && lok(e, kv) && rok(e, kv) && (is(rv(e, kv), []string) || is(rv(e, kv), []int64) || is(rv(e, kv), []float64)) ==> err == nil
 //@   loop 0 (expr)
 //@     invariant[C05] coherent: coherent(ctx, val(kv.Key), val(kv.Value))
 //@     invariant[C01] sofar: lok(e, kv) && left == lv(e, kv) && rlist == e.Right && is(e.Right, *ListExpr) && (rangeindex >= 0 ==> isText(lv(e, kv))) && !inTextN(e, kv, rangeindex + 1)
@@ -215,7 +228,7 @@ package kvql
 //@   loop 1 (val)
 //@     invariant true
 //@ func (e *BinaryOpExpr) execNumberIn(kv KVPair, ctx *ExecuteCtx) (ret any, err error)
-//@   props C01 C05
+//@   props C01 C05 C03
 //@   requires[C05] c5: coherent(ctx, val(kv.Key), val(kv.Value)) && wfCtx(ctx) && wfRefs()
 //@   ensures[C05] coherent: coherent(ctx, val(kv.Key), val(kv.Value))
 //@   requires wfBetween(e)
@@ -223,6 +236,7 @@ package kvql
 //@   ensures kind: err == nil ==> isbool(ret)
 //@   ensures[C01] defined: err == nil && is(e.Right, *ListExpr) ==> lok(e, kv) && (nitems(e) > 0 ==> isNum(lv(e, kv)))
 //@   ensures[C01] member: err == nil && is(e.Right, *ListExpr) && isInt(lv(e, kv)) && (forall j Int :: 0 <= j && j < nitems(e) ==> isInt(evalv(as(e.Right, *ListExpr).List[j], val(kv.Key), val(kv.Value)))) ==> ret == ABool(inIntN(e, kv, nitems(e)))
+//@   ensures[C03] lists: (is(e.Right, *FunctionCallExpr) || is(e.Right, *FieldReferenceExpr)) && rtype(e.Right) == TLIST && lok(e, kv) && rok(e, kv) && (is(rv(e, kv), []string) || is(rv(e, kv), []int64) || is(rv(e, kv), []float64)) ==> err == nil
 //@   loop 0 (expr)
 //@     invariant[C05] coherent: coherent(ctx, val(kv.Key), val(kv.Value))
 //@     invariant[C01] sofar: lok(e, kv) && left == lv(e, kv) && rlist == e.Right && is(e.Right, *ListExpr) && (rangeindex >= 0 ==> isNum(lv(e, kv))) && (isInt(lv(e, kv)) && (forall j Int :: 0 <= j && j < nitems(e) ==> isInt(evalv(as(e.Right, *ListExpr).List[j], val(kv.Key), val(kv.Value)))) ==> !inIntN(e, kv, rangeindex + 1))
@@ -304,8 +318,10 @@ package kvql
 //@ define docTextBetween(e *BinaryOpExpr, kv KVPair, ok Bool, r Any) Bool = (ok ==> lok(e, kv) && bshape(e) && evalok(blo(e), val(kv.Key), val(kv.Value)) && evalok(bhi(e), val(kv.Key), val(kv.Value)) && isText(lv(e, kv)) && isText(lov(e, kv)) && isText(hiv(e, kv)) && cmp(textOf(lov(e, kv)), textOf(hiv(e, kv))) <= 0 && r == ABool(cmp(textOf(lov(e, kv)), textOf(lv(e, kv))) <= 0 && cmp(textOf(lv(e, kv)), textOf(hiv(e, kv))) <= 0)) && (lok(e, kv) && bshape(e) && rtype(blo(e)) == TSTR && rtype(bhi(e)) == TSTR && evalok(blo(e), val(kv.Key), val(kv.Value)) && evalok(bhi(e), val(kv.Key), val(kv.Value)) && isText(lv(e, kv)) && isText(lov(e, kv)) && isText(hiv(e, kv)) && cmp(textOf(lov(e, kv)), textOf(hiv(e, kv))) <= 0 ==> ok)
 //@ define docNumBetween(e *BinaryOpExpr, kv KVPair, ok Bool, r Any) Bool = (ok ==> lok(e, kv) && bshape(e) && evalok(blo(e), val(kv.Key), val(kv.Value)) && evalok(bhi(e), val(kv.Key), val(kv.Value)) && isNum(lv(e, kv)) && isNum(lov(e, kv)) && isNum(hiv(e, kv))) && (ok && isInt(lv(e, kv)) && isInt(lov(e, kv)) && isInt(hiv(e, kv)) ==> intof(lov(e, kv)) <= intof(hiv(e, kv)) && r == ABool(intof(lov(e, kv)) <= intof(lv(e, kv)) && intof(lv(e, kv)) <= intof(hiv(e, kv)))) && (lok(e, kv) && bshape(e) && rtype(blo(e)) == TNUMBER && rtype(bhi(e)) == TNUMBER && evalok(blo(e), val(kv.Key), val(kv.Value)) && evalok(bhi(e), val(kv.Key), val(kv.Value)) && isInt(lv(e, kv)) && isInt(lov(e, kv)) && isInt(hiv(e, kv)) && intof(lov(e, kv)) <= intof(hiv(e, kv)) ==> ok)
 //@ define docTextIn(e *BinaryOpExpr, kv KVPair, ok Bool, r Any) Bool = ok ==> lok(e, kv) && (nitems(e) > 0 ==> isText(lv(e, kv))) && r == ABool(inTextN(e, kv, nitems(e)))
+//@ define docRegexp(e *BinaryOpExpr, kv KVPair, ok Bool, r Any) Bool = (ok == (lok(e, kv) && rok(e, kv) && isText(lv(e, kv)) && isText(rv(e, kv)) && reOk(textOf(rv(e, kv))))) && (ok ==> r == ABool(reMatch(textOf(rv(e, kv)), textOf(lv(e, kv)))))
+//@ define docConcat(e *BinaryOpExpr, kv KVPair, ok Bool, r Any) Bool = (ok == (lok(e, kv) && rok(e, kv))) && (ok && isText(lv(e, kv)) && isText(rv(e, kv)) ==> isstr(r) && textOf(r) == cat(textOf(lv(e, kv)), textOf(rv(e, kv))))
 //@ define isOrderOp(op Operator) Bool = op == Gt || op == Gte || op == Lt || op == Lte
-//@ define docBin(e *BinaryOpExpr, kv KVPair, ok Bool, r Any) Bool = (e.Op == Eq ==> docEq(e, kv, ok, r)) && (e.Op == NotEq ==> docNe(e, kv, ok, r)) && (e.Op == PrefixMatch ==> docPrefix(e, kv, ok, r)) && (e.Op == And || e.Op == KWAnd ==> docAnd(e, kv, ok, r)) && (e.Op == Or || e.Op == KWOr ==> docOr(e, kv, ok, r)) && (isOrderOp(e.Op) && rtype(e.Left) == TSTR ==> docTextOrder(e, kv, ok, r)) && (isOrderOp(e.Op) && rtype(e.Left) != TSTR ==> docNumOrder(e, kv, ok, r)) && (e.Op == Sub || e.Op == Mul || e.Op == Div || (e.Op == Add && rtype(e.Left) != TSTR) ==> docMath(e, kv, ok, r)) && (e.Op == Between && rtype(e.Left) == TSTR ==> docTextBetween(e, kv, ok, r)) && (e.Op == Between && rtype(e.Left) != TSTR ==> docNumBetween(e, kv, ok, r)) && (e.Op == In && rtype(e.Left) == TSTR && is(e.Right, *ListExpr) ==> docTextIn(e, kv, ok, r))
+//@ define docBin(e *BinaryOpExpr, kv KVPair, ok Bool, r Any) Bool = (e.Op == Eq ==> docEq(e, kv, ok, r)) && (e.Op == NotEq ==> docNe(e, kv, ok, r)) && (e.Op == PrefixMatch ==> docPrefix(e, kv, ok, r)) && (e.Op == And || e.Op == KWAnd ==> docAnd(e, kv, ok, r)) && (e.Op == Or || e.Op == KWOr ==> docOr(e, kv, ok, r)) && (isOrderOp(e.Op) && rtype(e.Left) == TSTR ==> docTextOrder(e, kv, ok, r)) && (isOrderOp(e.Op) && rtype(e.Left) != TSTR ==> docNumOrder(e, kv, ok, r)) && (e.Op == Sub || e.Op == Mul || e.Op == Div || (e.Op == Add && rtype(e.Left) != TSTR) ==> docMath(e, kv, ok, r)) && (e.Op == Between && rtype(e.Left) == TSTR ==> docTextBetween(e, kv, ok, r)) && (e.Op == Between && rtype(e.Left) != TSTR ==> docNumBetween(e, kv, ok, r)) && (e.Op == In && rtype(e.Left) == TSTR && is(e.Right, *ListExpr) ==> docTextIn(e, kv, ok, r)) && (e.Op == RegExpMatch ==> docRegexp(e, kv, ok, r)) && (e.Op == Add && rtype(e.Left) == TSTR ==> docConcat(e, kv, ok, r))
 //
 // What the row evaluator was proved to compute, read through the definitional interface clauses
 // (result == evalv, err == nil iff evalok): the meaning of evalok / evalv on binary nodes. The
